@@ -699,6 +699,13 @@ def describe(case):
 BITS = ((1, "xbar"), (2, "free"), (4, "alpha_star"), (8, "dHat"), (16, "early"), (32, "r"))
 
 
+def _cleanup_cases(case_dir, failures):
+    """case files are kept only when something disagreed (they are the replay)"""
+    import shutil
+    if not failures:
+        shutil.rmtree(case_dir, ignore_errors=True)
+
+
 def run(tier="quick", seed=0, coq_dir=HERE, case_dir=None, per_file=CASES_PER_FILE, jobs=None):
     n_cases = {"quick": 600, "thorough": 10000}[tier] if isinstance(tier, str) else int(tier)
     t_start = time.time()
@@ -789,6 +796,7 @@ def run(tier="quick", seed=0, coq_dir=HERE, case_dir=None, per_file=CASES_PER_FI
     stats["python_raised"] = dict(stats["python_raised"])
     stats["streams"] = dict(stats["streams"])
     stats["coverage"] = {k: (dict(sorted(v.items())) if isinstance(v, Counter) else v) for k, v in sorted(cov.items())}
+    _cleanup_cases(case_dir, failures)
     return failures, stats
 
 
